@@ -4,6 +4,7 @@ import (
 	"fmt"
 	"math/big"
 
+	clpkeeper "github.com/Sifchain/sifnode/x/clp/keeper"
 	clptypes "github.com/Sifchain/sifnode/x/clp/types"
 	sdk "github.com/cosmos/cosmos-sdk/types"
 
@@ -242,7 +243,16 @@ func calcAddRemove(rep *report.Report, r *chain.Rng, cases *[]CalcCase, next *in
 		rep.Violate("C04/calc/add-remove-side-more", fmt.Sprintf("status %d gave (%s,%s) got (%s,%s)", st, rr, aa, wn, we), both)
 	}
 	// clause 2b: no better than swapping the given-up amount (guard: the swap takes at most 90% of a side)
-	if st == 0 && dN.Sign() < 0 && dE.Sign() > 0 { // gave up native, gained external
+	// the guard of the clause: "unless the equivalent swap would take more than 90% of one side" — the equivalent swap is
+	// the internal swap of s at the public price (and, to be safe, also the public swap of the given-up amount)
+	equivTakesTooMuch := func(toRowan bool, X, Y, fee *big.Int) bool {
+		if s.Sign() == 0 {
+			return false
+		}
+		kk, oo := RunCalc(1, []*big.Int{boolBig(toRowan), X, s, Y, pm, fee})
+		return kk != 0 || mulBig(oo[0], big.NewInt(10)).Cmp(mulBig(Y, big.NewInt(9))) > 0
+	}
+	if st == 0 && dN.Sign() < 0 && dE.Sign() > 0 && !equivTakesTooMuch(false, R, A, fs) { // gave up native, gained external
 		g := new(big.Int).Neg(dN)
 		k3, o3 := addCalc(rep, cases, next, 1, []*big.Int{boolBig(false), R, g, A, pm, fs})
 		if k3 == 0 && mulBig(o3[0], big.NewInt(10)).Cmp(mulBig(A, big.NewInt(9))) <= 0 {
@@ -253,7 +263,7 @@ func calcAddRemove(rep *report.Report, r *chain.Rng, cases *[]CalcCase, next *in
 			}
 		}
 	}
-	if st == 1 && dE.Sign() < 0 && dN.Sign() > 0 {
+	if st == 1 && dE.Sign() < 0 && dN.Sign() > 0 && !equivTakesTooMuch(true, A, R, fb) {
 		g := new(big.Int).Neg(dE)
 		k3, o3 := addCalc(rep, cases, next, 1, []*big.Int{boolBig(true), A, g, R, pm, fb})
 		if k3 == 0 && mulBig(o3[0], big.NewInt(10)).Cmp(mulBig(R, big.NewInt(9))) <= 0 {
@@ -524,6 +534,39 @@ func ScriptAddRemove(rep *report.Report, rng *chain.Rng, hid int, nextID *int) H
 			return nil
 		}
 		return netDelta(a0, e2.Snapshot(), e2.AcctID[u2.Addr.String()], e2.DenomID[to], 1)
+	}
+	// the equivalent (internal) swap of the add, from the real calculator on the pre-state with the public fee rates
+	tooMuch := false
+	func() {
+		defer func() {
+			if recover() != nil {
+				tooMuch = true
+			}
+		}()
+		fsell := s.FeeDef
+		if f, ok := s.FeeTok["rowan"]; ok {
+			fsell = f
+		}
+		fbuy := s.FeeDef
+		if f, ok := s.FeeTok[tok]; ok {
+			fbuy = f
+		}
+		_, _, status, sw, err := clpkeeper.CalculatePoolUnits(env.U(p0.Units), env.U(R0), env.U(A0), env.U(rr), env.U(aa), dec(fsell), dec(fbuy), dec(s.Pmtp))
+		if err != nil || sw == (sdk.Uint{}) || sw.IsZero() {
+			return
+		}
+		swb := ub(sw)
+		if int(status) == 0 { // sell native
+			kk, oo := RunCalc(1, []*big.Int{boolBig(false), R0, swb, A0, s.Pmtp, fsell})
+			tooMuch = kk != 0 || mulBig(oo[0], big.NewInt(10)).Cmp(mulBig(A0, big.NewInt(9))) > 0
+		} else if int(status) == 1 {
+			kk, oo := RunCalc(1, []*big.Int{boolBig(true), A0, swb, R0, s.Pmtp, fbuy})
+			tooMuch = kk != 0 || mulBig(oo[0], big.NewInt(10)).Cmp(mulBig(R0, big.NewInt(9))) > 0
+		}
+	}()
+	if tooMuch {
+		rep.Count("c04.app.vs-swap.exempt-90pct")
+		return h
 	}
 	if dN.Sign() < 0 && dE.Sign() > 0 {
 		g := new(big.Int).Neg(dN)
